@@ -200,6 +200,12 @@ func (l *List) LRem(key string, count int, value []byte) (int, error) {
 	}
 	size, _ := l.Size(key)
 
+	// removing more than size occurrences from the tail is removing all of them from the tail;
+	// the clamp also keeps -count from overflowing for math.MinInt64
+	if count < -size {
+		count = -size
+	}
+
 	needRemovedNum, err := l.LRemNum(key, count, value)
 	if err != nil {
 		return 0, err
@@ -270,6 +276,10 @@ func (l *List) LRemNum(key string, count int, value []byte) (int, error) {
 	}
 
 	tempVal := l.Items[key]
+
+	if count < -size {
+		count = -size
+	}
 
 	if count < 0 {
 		count = -count
